@@ -45,7 +45,8 @@ RULE = ("Hypothesis-generated cases, one clause per relation. Epoch = integer ye
         "obliquity/nutation functions as Epoch, (y, m, d) positional, tuple, list, "
         "datetime.date, datetime.datetime. Non-trivial: |year - 2000| > 50, or an equinox "
         "epoch other than J2000, or a date form other than Epoch; distinct = distinct case "
-        "dict.")
+        "dict."
+        " Years at the ends of the stated range are over-weighted (50 first/last years), Epoch arguments are recycled objects in one case out of four, and the nutation clause runs a second campaign confined to the first and last 150 years of -2000..4000.")
 ASSUMPTIONS = [
     "reflection: longitude difference 180 deg (mod 360), latitudes opposite, to 1e-9 deg; "
     "same distance to 1e-12 AU (the text gives no number: these are float rounding bounds); "
